@@ -4,7 +4,9 @@
 REPO="${1:-/repo}"
 LOG="$(mktemp /verif/.run/baseline.XXXXXX.log)"
 mkdir -p /verif/.run
-( cd "$REPO" && env -u RUSTFLAGS cargo test --workspace --no-fail-fast --offline ) >"$LOG" 2>&1
+# BASELINE_FAST=1 skips the doc-tests (they are not part of BASELINE.json and dominate the run time)
+EXTRA=""; [ "${BASELINE_FAST:-0}" = 1 ] && EXTRA="--lib --bins --tests"
+( cd "$REPO" && env -u RUSTFLAGS cargo test --workspace --no-fail-fast --offline $EXTRA ) >"$LOG" 2>&1
 python3 - "$LOG" <<'PY'
 import json,re,sys
 log=open(sys.argv[1]).read()
